@@ -17,18 +17,19 @@ func init() {
 		Level: "exploration",
 		Rule: "cases: two streams - (a) precedence scenarios built around one workload pair (1-3 ANPs whose subject and peers select the pair, all action mixes, overlapping port shapes, x {no NP, NP governing, NP not governing} x {no BANP, BANP Allow/Deny}) and (b) random ANP/BANP/NP worlds; " +
 			"each world is analysed in three document orders of the admin policies (ascending priority, descending, shuffled + random file layout); the first report is compared with the reference model on all pairs x 3x65535 points and all address atoms, the other two must equal the first; CheckIfAllowed (engine built from the parsed objects, ascending and shuffled order) is compared with the model for every workload pair at the boundary ports of all rules x 3 protocols; " +
+			"the tail of the case list holds fixture-derived worlds: the manifest directories shipped with the repository that hold admin policies and that our own decoder can express as a world, analysed as shipped, re-emitted, and after 1..k single-step edits, judged by the same model on the list and the eval route; " +
 			"non-trivial = for some workload pair at least two of the layers ANP / NetworkPolicy / BANP decided some point (model trace); effective = an admin policy decided some point of some pair",
 		Assumptions: []string{
 			"reference model implements the scan order of the property statement (ascending priority, rules in order, first match decides; Pass/no match falls to NetworkPolicy if it governs, else first matching BANP rule, else allow)",
 			"ANP named ports are resolved on the destination pod with the protocol of the container port",
 			"API-admissible inputs: distinct priorities 0..1000, distinct names, exactly one of namespaces/pods per subject or peer",
 		},
-		NumCases:          func(tier string, _ int64) int { return tierN(tier, 1500, 60000) },
+		NumCases:          func(tier string, _ int64) int { return tierN(tier, 1500, 60000) + nFixModel(tier) },
 		Run:               runC02,
 		MinNonTrivial:     200,
 		MinEffectiveShare: 0.3,
 		RequiredEvents: map[string]int64{"pairs_compared": 10000, "worlds_two_anps_on_one_pair": 50, "inputs_anps_out_of_priority_order": 100,
-			"eval_queries": 100000, "layer_anp": 100, "layer_np": 100, "layer_banp": 50, "feature_anpPass": 100, "feature_anpDeny": 100, "feature_anpAllow": 100},
+			"eval_queries": 100000, "layer_anp": 100, "layer_np": 100, "layer_banp": 50, "feature_anpPass": 100, "feature_anpDeny": 100, "feature_anpAllow": 100, "fixture_cases": 20},
 	})
 }
 
@@ -65,6 +66,10 @@ func relationsEqual(a, b *observe.ListResult) (bool, string) {
 
 func runC02(c *run.Ctx) {
 	r := c.Res
+	if base := tierN(c.Tier, 1500, 60000); c.Idx >= base { // tail of the list: fixture-derived worlds with admin policies
+		runFixtureModel(c, c.Idx-base, true, "c02", true)
+		return
+	}
 	g := c.R("world")
 	cfg := world.DefaultCfg()
 	cfg.NamedEgressIP = 0
